@@ -45,7 +45,7 @@ package async
 //@ func Q.Close
 //@   requires !held(a.lock) && a.reqList != nil
 //@   ensures #closed a.closed && same(a.reqList)
-//@   modifies Q.closed, a.reqList.lmem, a.reqList.lcnt, list.Element.lrk, list.Element.Value
+//@   modifies a.closed, a.reqList.lmem, a.reqList.lcnt, list.Element.lrk, list.Element.Value
 //
 //@ func Q.pop
 //@   requires !held(a.lock) && a.reqList != nil && errsOK()
